@@ -38,7 +38,8 @@ def classify(run, case, impl, model):
 
 def violates(run, case, impl, model):
     # the harness evaluates the property's predicates on the implementation's own event log
-    # (cap, gate, order, exactly-once, queue order / target, shutdown) and reports them in viol=;
+    # (cap, gate, order, exactly-once, queue order / target, shutdown, ReleaseArgs exactly once and no later than
+    # the completion: args-not-released / args-released-twice) and reports them in viol=;
     # a hang or a stuck history violates deadlock freedom
     if impl.startswith("hang") or impl.startswith("stuck") or impl.startswith("child-died"):
         return True
@@ -58,9 +59,17 @@ LEVEL_TEXT = ("Proof (all schedules, all MaxConcurrentCalls >= 1 / queue sizes /
               "statement is shown to fail for the code before the fix): every delivery goes to the result of the call it was "
               "pipelined on, or to that call's pipeline caller while it is still running - never to another answer; user "
               "Shutdown runs at most once, only when no call holds a slot, cancels running calls, nothing starts after Shutdown "
-              "began; no Go panic is reachable; blocked callers are released when the drain starts; deadlock freedom (a library "
+              "began; ARGUMENTS (C12_args_released_once, code as it is, premise p_relfix = true; shown to fail for the variant "
+              "that returns without ReleaseArgs on start's cancelled-while-waiting-for-a-slot branch): on every path of start, "
+              "the method goroutine and the answerQueue r.ReleaseArgs() runs at most once per call, exactly once from the "
+              "releasing stage on, and has run whenever the call has completed (no later than Returner.Return); "
+              "no Go panic is reachable; blocked callers are released when the drain starts; deadlock freedom (a library "
               "step is enabled or the application holds the ball) and per-thread termination measures.")
-LEVEL_NOTE = ("Trusted: Coq kernel, extraction, the hand-written model, the trace acceptor, the synctest harness. All theorems "
+LEVEL_NOTE = ("ReleaseArgs is observed by the harness only for calls made with Recv / PipelineRecv (the harness supplies "
+              "the ReleaseArgs closure); for Send / PipelineSend the library builds the closure itself (printed as ?). In the "
+              "model the capability a pipelined call is delivered to releases the arguments when it returns (r.Return / "
+              "r.Reject), as the harness targets do; that arbitrary capabilities do so is not part of C12. "
+              "Trusted: Coq kernel, extraction, the hand-written model, the trace acceptor, the synctest harness. All theorems "
               "except the three target theorems hold for both code variants (they say nothing about the target). The transform "
               "(pointer path inside the result) is opaque in the model: that the capability at the right PATH is used is checked "
               "by the harness only (fields 0, 1, 257). Known finding: self-pipelining deadlock (result contains the server's own "
